@@ -227,10 +227,27 @@ def run(ctx):
                         "translation are modelled and compared, the engine is not)"]
 
 
+# (rule lines, independent reading of each rule as (regex on the item-relative path, allow))
 WALK_FILTERS = [
-    ["- d1"], ["+ d1/c.txt", "- d1"], ["- d1/*", "+ **"], ["- **/*.o", "- .hid"], ["+ d2/**", "- *"], ["- d1/d2", "+ d1/**", "- **"],
-    ["- sp\\ ace"], ["- {d1,d2}/c.txt"], ["- [ab]"], ["- ?"], ["+ **/c.txt", "- d2/**"],
+    (["- d1"], [(rb"d1", False)]),
+    (["+ d1/c.txt", "- d1"], [(rb"d1/c\.txt", True), (rb"d1", False)]),
+    (["- d1/*", "+ **"], [(rb"d1/[^/]*", False), (rb".*", True)]),
+    (["- **/*.o", "- .hid"], [(rb"(?:/?|.*/)[^/]*\.o", False), (rb"\.hid", False)]),
+    (["+ d2/**", "- *"], [(rb"d2/.*", True), (rb"[^/]*", False)]),
+    (["- d1/d2", "+ d1/**", "- **"], [(rb"d1/d2", False), (rb"d1/.*", True), (rb".*", False)]),
+    (["- sp\\ ace"], [(rb"sp ace", False)]),
+    (["- {d1,d2}/c.txt"], [(rb"(?:d1|d2)/c\.txt", False)]),
+    (["- [ab]"], [(rb"[ab]", False)]),
+    (["- ?"], [(rb"[^/]", False)]),
+    (["+ **/c.txt", "- d2/**"], [(rb"(?:/?|.*/)c\.txt", True), (rb"d2/.*", False)]),
 ]
+
+
+def allowed_by(rules, rel):
+    for rx, allow in rules:
+        if re.fullmatch(rx, rel, flags=re.S):
+            return allow
+    return True
 
 
 def walker_part(ctx):
@@ -242,7 +259,7 @@ def walker_part(ctx):
     n = 40 if ctx.tier == "thorough" else 6
     for k in range(n):
         with slevel.Sandbox("c14") as sb:
-            f = rng.choice(WALK_FILTERS)
+            f, rules = rng.choice(WALK_FILTERS)
             H = runs.History(ctx, sb, rng, "C14", 3, 3, nitems=1, filters=[f])
             H.w.populate(nfiles=14)
             res, published, name = H.run(nedits=0)
@@ -254,6 +271,33 @@ def walker_part(ctx):
                 total = sum(len(d) + len(fl) for _, d, fl in os.walk(root))
                 ctx.count("walker.paths_kept", kept)
                 ctx.count("walker.paths_excluded", total - kept)
+                # the property, evaluated on the real backup: a path below the root is in the archive iff every non-empty
+                # prefix of its item-relative path is allowed by the first matching rule
+                dec = H.dec
+                g = [x for x in dec["groups"] if any(e["name"] == name for e in x["entries"])][0]
+                b = [e for e in g["entries"] if e["name"] == name][0]
+                have = {bytes.fromhex(e["path_hex"]).rstrip(b"/") for e in b["archive"]["entries"]}
+                rootb = os.fsencode(root)
+                for dp, dn, fl in os.walk(rootb):
+                    for nme in dn + fl:
+                        full = os.path.join(dp, nme)
+                        st_ = os.lstat(full)
+                        import stat as _stat
+                        if not (_stat.S_ISREG(st_.st_mode) or _stat.S_ISDIR(st_.st_mode) or _stat.S_ISLNK(st_.st_mode)):
+                            continue
+                        rel = full[len(rootb) + 1:]
+                        parts = rel.split(b"/")
+                        want = all(allowed_by(rules, b"/".join(parts[:i + 1])) for i in range(len(parts)))
+                        got = full.lstrip(b"/") in have
+                        if want != got:
+                            ctx.violation("walker", "filter %r: %r is %s the backup, but %s" % (
+                                f, rel.decode("utf-8", "replace"), "in" if got else "missing from",
+                                "some prefix of it is denied by the first matching rule" if got else "every prefix of it is allowed"),
+                                {"filter": f, "path": rel.decode("utf-8", "replace")})
+                            return
+                if rootb.lstrip(b"/") not in have:
+                    ctx.violation("walker", "the item root itself is missing from the backup (filter %r)" % f, {"filter": f})
+                    return
             H.report_diffs("walker-filter")
         if ctx.violations:
             break
